@@ -603,7 +603,10 @@ def check(pid, tier, seed, replay=None):
             if not (shrink and exe and drv):
                 return case
             cur = case
+            t_min = time.time()
             for _ in range(200):
+                if time.time() - t_min > (60 if tier == "quick" else 300):
+                    break            # minimisation is a convenience; never let it dominate the run
                 cands = list(shrink(cur))[:400]
                 if not cands:
                     break
